@@ -174,6 +174,9 @@ def _strings():
             if s != s.strip() and False:
                 continue
             out.append(s)
+    # texts that a Unicode 'clean-up' of the cells would change: not NFC (decomposed accent, ANGSTROM / OHM SIGN), full-width, a
+    # soft hyphen, a zero-width joiner, a BOM inside the cell, upper / lower case pairs with special mappings
+    out += ['e\u0301', 'a\u0301b', '\u212b', '\u2126', '\uff21', 'x\xady', 'a\u200db', 'a\ufeff', '\xdf', '\u0130', 'A', '\u037e']
     return out
 
 
@@ -287,7 +290,7 @@ OBLIGATIONS = [
        shard_of=lambda sel, col: sel, shards={'quick': 8, 'thorough': 16}, budget_s={'quick': 120, 'thorough': 900},
        witnesses=[{'sel': 0, 'col': 1}], min_confirmed=300, enumerated='cell string selector (realised before csv.reader: the solver cannot see inside csv)',
        realized_at=['Importer.import_string -> csv.reader (C boundary)'],
-       bounds={'quick': 'all strings of 1..3 characters over {", \', comma, space, a, e-acute, backslash} in either column',
+       bounds={'quick': 'all strings of 1..3 characters over {", \', comma, space, a, e-acute, backslash} + 12 texts that a Unicode clean-up would change (not NFC, full-width, soft hyphen, ZWJ, BOM, special case mappings), in either column',
                'thorough': '1..4 characters, alphabet + ; |'}),
     Ob(id='C02.c', fn=ob_c, title='a line with more cells than live spine paths is rejected',
        budget_s={'quick': 60, 'thorough': 120}, witnesses=[{'n': 2, 'w': 2, 'split': False, 'kind': 0}], min_confirmed=100,
